@@ -92,11 +92,15 @@ def mutants(a, seed):
                             '--tier', a.tier, '--no-evidence', '--no-shrink'], capture_output=True, text=True, timeout=7200, env=env)
         caught = r.returncode == 1 and 'VIOLATION property=%s' % pid in r.stdout
         first = ''
+        total = 0
+        import re
         for ln in r.stdout.splitlines():
             if ln.strip().startswith('clause='):
-                first = ln.strip()[:160]
-                break
-        return name, pid, caught, r.returncode, first
+                if not first:
+                    first = ln.strip()[:160]
+                m = re.search(r' runs=(\d+):', ln)
+                total += int(m.group(1)) if m else 0
+        return name, pid, caught, r.returncode, ('violating-runs=%d ' % total) + first
     bad = 0
     rows = []
     with ThreadPoolExecutor(max_workers=int(os.environ.get('DFSIM_MUTANT_JOBS', '3'))) as ex:
